@@ -8,26 +8,37 @@ namespace Alliance
 namespace GoSem
 open Dec
 
-def isZero (a : Dec) : Bool := decide (a = 0)
-def decFromInt (n : Int) : Dec := ofInt n
-def oneDec : Dec := one
-def rounder : Dec := Dec.rounder
+abbrev isZero (a : Dec) : Bool := decide (a = 0)
+abbrev decFromInt (n : Int) : Dec := ofInt n
+abbrev oneDec : Dec := one
+abbrev rounder : Dec := Dec.rounder
 /-- `LegacyDec.Quo`: panics on a zero divisor -/
 def quo (a b : Dec) : Except Err Dec := if b = 0 then .error (.panic "div_zero") else .ok (Dec.quo a b)
-def mul (a b : Dec) : Dec := Dec.mul a b
-def mulInt (a : Dec) (n : Int) : Dec := Dec.mulInt a n
-def add (a b : Dec) : Dec := a + b
-def sub (a b : Dec) : Dec := a - b
-def truncateInt (a : Dec) : Int := Dec.truncateInt a
-def intEq (a b : Int) : Bool := decide (a = b)
-def truncateDec (a : Dec) : Dec := Dec.truncateDec a
-def abs (a : Dec) : Dec := Dec.abs a
-def lt (a b : Dec) : Bool := decide (a < b)
-def gt (a b : Dec) : Bool := decide (a > b)
+abbrev mul (a b : Dec) : Dec := Dec.mul a b
+abbrev mulInt (a : Dec) (n : Int) : Dec := Dec.mulInt a n
+abbrev add (a b : Dec) : Dec := a + b
+abbrev sub (a b : Dec) : Dec := a - b
+abbrev truncateInt (a : Dec) : Int := Dec.truncateInt a
+abbrev intEq (a b : Int) : Bool := decide (a = b)
+abbrev truncateDec (a : Dec) : Dec := Dec.truncateDec a
+abbrev abs (a : Dec) : Dec := Dec.abs a
+abbrev lt (a b : Dec) : Bool := decide (a < b)
+abbrev gt (a b : Dec) : Bool := decide (a > b)
 /-- `sdk.NewCoin(denom, amount)`: panics on a negative amount; the model carries the amount only -/
 def newCoin (_d : Denom) (x : Int) : Except Err Int := newCoinAmt x
-def totalDelegationSharesWithDenom (v : ValInfo) (d : Denom) : Dec := totalDelSharesWithDenom v d
-def validatorSharesWithDenom (v : ValInfo) (d : Denom) : Dec := valSharesWithDenom v d
+abbrev totalDelegationSharesWithDenom (v : ValInfo) (d : Denom) : Dec := totalDelSharesWithDenom v d
+abbrev validatorSharesWithDenom (v : ValInfo) (d : Denom) : Dec := valSharesWithDenom v d
+
+/-- `sdk.NewDecCoins(coins...)` of an already valid coin set: the set itself (sorting/validation of a valid set is the identity) -/
+abbrev newDecCoins (c : DecCoins) : DecCoins := c
+abbrev amountOf (c : DecCoins) (d : Denom) : Dec := DecCoins.amountOf c d
+/-- `sdk.NewDecCoins(sdk.NewDecCoinFromDec(d, x))` / `sdk.NewDecCoins(coin)`: a zero amount is dropped -/
+abbrev singleDecCoin (d : Denom) (x : Dec) : DecCoins := DecCoins.single d x
+/-- `DecCoins.Sub`: panics on a negative result -/
+def decCoinsSub (a b : DecCoins) : Except Err DecCoins := Alliance.decCoinsSub a b
+
+abbrev timeAfter (a b : Time) : Bool := decide (a > b)
+abbrev timeEq (a b : Time) : Bool := decide (a = b)
 
 end GoSem
 end Alliance
